@@ -13,6 +13,8 @@ package net
 import (
 	"context"
 	"encoding/json"
+	"strconv"
+	"strings"
 	"time"
 
 	"github.com/fxamacker/cbor/v2"
@@ -158,24 +160,41 @@ func (p *Peer) pushHeadsForAllDocs(ctx context.Context, col client.Collection, p
 	txn := datastore.MustGetFromClientTxn(clientTxn)
 	ctx = datastore.CtxSetTxn(ctx, txn)
 
-	// The docIDs are produced by a goroutine that owns an iterator of this transaction. It has to
-	// be stopped and drained before the transaction is discarded, also when we return early.
-	ctx, cancel := context.WithCancel(ctx)
-	docIDChan, err := col.GetAllDocIDs(ctx)
+	// Every document of the collection is pushed, whoever may read it: the docIDs are listed from the
+	// primary keys directly. (collection.GetAllDocIDs filters by the read permission of the identity in
+	// the context, there is none here, and would skip every document registered with document ACP.)
+	shortIDBytes, err := txn.Systemstore().Get(ctx, keys.NewCollectionID(col.Version().CollectionID).Bytes())
 	if err != nil {
-		cancel()
 		return err
 	}
-	defer func() {
-		cancel()
-		for range docIDChan { //nolint:revive
+	shortID, err := strconv.ParseUint(string(shortIDBytes), 10, 32)
+	if err != nil {
+		return err
+	}
+	prefix := keys.PrimaryDataStoreKey{CollectionShortID: uint32(shortID)}.ToString() + "/"
+	iter, err := txn.Datastore().Iterator(ctx, corekv.IterOptions{
+		Prefix:   []byte(prefix),
+		KeysOnly: true,
+	})
+	if err != nil {
+		return err
+	}
+	var docIDs []string
+	for {
+		hasNext, err := iter.Next()
+		if err != nil {
+			return errors.Join(err, iter.Close())
 		}
-	}()
-	for docIDResult := range docIDChan {
-		if docIDResult.Err != nil {
-			return docIDResult.Err
+		if !hasNext {
+			break
 		}
-		docID := docIDResult.ID.String()
+		docIDs = append(docIDs, strings.TrimPrefix(string(iter.Key()), prefix))
+	}
+	if err := iter.Close(); err != nil {
+		return err
+	}
+
+	for _, docID := range docIDs {
 		err := p.pushHeadsForDoc(ctx, docID, col.SchemaRoot(), peerID)
 		if err != nil {
 			return err
